@@ -338,6 +338,34 @@ struct Rewriter<'a> {
     pred_counter: usize,
 }
 
+/// R35 helper: rewrites the first top-level `if c { ..; continue; }` (no else, unlabeled continue last)
+/// of a block into `if c { .. } else { <rest of the block> }`, recursively in the new else block.
+fn continue_to_else(b: &mut Block) -> usize {
+    let mut idx: Option<usize> = None;
+    for (i, st) in b.stmts.iter().enumerate() {
+        if let Stmt::Expr(Expr::If(ei), _) = st {
+            if ei.else_branch.is_none() {
+                if let Some(Stmt::Expr(Expr::Continue(c), _)) = ei.then_branch.stmts.last() {
+                    if c.label.is_none() {
+                        idx = Some(i);
+                        break;
+                    }
+                }
+            }
+        }
+    }
+    let i = match idx { Some(i) => i, None => return 0 };
+    let rest: Vec<Stmt> = b.stmts.split_off(i + 1);
+    let mut else_block: Block = parse_quote!({ #(#rest)* });
+    let n = continue_to_else(&mut else_block);
+    if let Some(Stmt::Expr(Expr::If(ei), semi)) = b.stmts.last_mut() {
+        ei.then_branch.stmts.pop();
+        ei.else_branch = Some((Default::default(), Box::new(Expr::Block(syn::ExprBlock { attrs: vec![], label: None, block: else_block }))));
+        *semi = None;
+    }
+    n + 1
+}
+
 fn line_of<T: syn::spanned::Spanned>(t: &T) -> usize {
     t.span().start().line
 }
@@ -870,6 +898,12 @@ impl<'a> VisitMut for Rewriter<'a> {
                     let inner = fl.expr.clone();
                     fl.expr = Box::new(parse_quote!(vx_collect_refs(#inner)));
                     self.logr("R26", line, format!("for-loop over generic IntoIterator parameter `{}` -> vx_collect_refs({})", id, id));
+                }
+                // R35: `if c { ..; continue; } rest` at the top level of a for body -> `if c { .. } else { rest }`
+                // (the verifier's for-loops do not accept `continue`)
+                let n = continue_to_else(&mut fl.body);
+                if n > 0 {
+                    self.logr("R35", line, format!("{} `if .. {{ ..; continue; }} rest` -> if/else in a for body", n));
                 }
             }
             Expr::Macro(em) => {
